@@ -173,8 +173,9 @@ produceLoop:
 }
 
 func getOctoSQLValue(t octosql.Type, value *fastjson.Value) (out octosql.Value, ok bool) {
-	if value == nil {
-		return octosql.NewNull(), t.TypeID == octosql.TypeIDNull
+	if value == nil || value.Type() == fastjson.TypeNull {
+		// A missing field or an explicit null fits every type that admits NULL (also inside unions, objects and lists).
+		return octosql.NewNull(), octosql.Null.Is(t) == octosql.TypeRelationIs
 	}
 
 	switch t.TypeID {
